@@ -27,9 +27,12 @@ LABEL_POOL = [
 
 def one_tree(rng, tid, shape=None):
     if shape is None:
+        want_ten = rng.random() < 0.15
         while True:
-            kind, parent, req = mktree(random_tree(rng, max_nodes=rng.choice([4, 7, 11]), p_sched=0.35))
-            if len(kind) >= 2:
+            kind, parent, req = mktree(random_tree(rng, max_nodes=11 if want_ten else rng.choice([4, 7, 11]),
+                                                   p_sched=0.35))
+            # a power of ten as the number of ids is where zero-padding changes width
+            if len(kind) >= 2 and (not want_ten or len(kind) == 11):
                 break
     else:
         kind, parent, req = shape
@@ -40,7 +43,8 @@ def one_tree(rng, tid, shape=None):
     for _ in range(n):
         lab = rng.choice(LABEL_POOL)
         labels.append(None if lab is None else [ord(c) for c in lab])
-    return {"tid": tid, "pure": rng.random() < 0.3, "kind": kind, "parent": parent, "req": req,
+    return {"tid": tid, "pure": rng.random() < 0.3, "pre": rng.random() < 0.3,
+            "kind": kind, "parent": parent, "req": req,
             "crit": [rng.random() < 0.5 for _ in range(n)],
             "forever": [rng.random() < 0.3 for _ in range(n)], "label": labels, "hash": perm}
 
@@ -200,7 +204,14 @@ def known_findings():
     return out
 
 
-DOT_ATTR = [(r".*", r".*", ["C20"])]
+DOT_ATTR = [(r"^list$", r".*", ["C20", "C15"]), (r".*", r".*", ["C20"])]
+
+
+def list_rejections(tier, seed, workdir, count):
+    """for C15: only the listing part (numbering in topological order) of a smaller family"""
+    items = trees(tier, seed + 1000)[:count]
+    recs, rejected = run_all(items, workdir)[:2]
+    return recs, [r for r in rejected if r["op"] == "list"]
 
 
 def shard(args):
